@@ -32,7 +32,7 @@ var (
 	fVerbose = flag.Bool("sim.v", false, "verbose")
 	fDump    = flag.Bool("sim.dump", false, "dump the event log of every case (determinism self-test)")
 	fArm     = flag.String("sim.arm", "", "restrict to one arm of the property (debugging)")
-	fCaseTimeout = flag.Float64("sim.casetimeout", 120, "wall-clock seconds after which a single case is declared stuck (exit 4)")
+	fCaseTimeout = flag.Float64("sim.casetimeout", 45, "wall-clock seconds after which a single case is declared stuck (exit 4)")
 )
 
 // Stats accumulates what a worker explored.
